@@ -39,6 +39,7 @@ def run_method(prog, name, hooks=None, ret_closures=(), store_hooks=None):
         return None
     I = new_interp(prog)
     obsutil.track_equalities(I)
+    I.type_invariants["observe::Observer"] = obsutil.observer_invariant(prog)
     st = State()
     args = subject_args(I, prog, body, st, gargs)
     results = {}
@@ -195,7 +196,9 @@ def make_ack_extra(prog, i_mid):
             if not isinstance(ref, RefV):
                 return False
             m = I.read(s, ref.place.extend(("f", i_mid)))
-            if not (isinstance(m, EnumV) and list(m.variants) == [1] and isinstance(m.variants[1], StructV)):
+            # (the Some payload entailed equal to the acknowledged id: such a fact only arises from a comparison made on a path
+            # on which the pending id was Some - also when the predicate tested a copy, as in `x.message_id.is_some_and(..)`)
+            if not (isinstance(m, EnumV) and 1 in m.variants and isinstance(m.variants[1], StructV)):
                 return False
             pend = m.variants[1].fields[0]
             # request.message.header.message_id
